@@ -131,6 +131,9 @@ def in_memory_ts(names):
     return (X, y)
 
 
+FITTED = ("fitted", "refitted", "retract-fitted", "fitted-unusual")
+
+
 def build_state(rng, cid):
     """-> (idnt, state name, curve description, factory to rebuild state)"""
     kind = rng.random()
@@ -149,8 +152,14 @@ def build_state(rng, cid):
         desc = {"synthetic": spec}
     state = ["fresh", "preprocessed-only", "fitted", "fitted",
              "settings-edited-after-fit", "unsuccessful-fit", "refitted",
-             "retract-fitted", "unsuccessful-multi-pass-fit"][
-        int(rng.integers(9))]
+             "retract-fitted", "unsuccessful-multi-pass-fit",
+             "fitted-unusual"][int(rng.integers(10))]
+    odd = fitlab.draw_odd_fit(rng)
+    if state == "fitted-unusual":
+        if isinstance(desc, dict):
+            desc["unusual fit"] = odd
+        else:
+            desc += " unusual fit %s" % json.dumps(odd)
     pipe = ["compute_tip_position", "correct_force_offset",
             "correct_tip_offset"]
     mk = ["hertz_para", "sneddon_spher_approx"][int(rng.integers(2))]
@@ -163,12 +172,20 @@ def build_state(rng, cid):
         if state == "preprocessed-only":
             return i
         if state == "unsuccessful-fit":
-            i.fit_model(model_key=mk, range_x=[1e-3, 1.001e-3])
+            try:
+                i.fit_model(model_key=mk, range_x=[1e-3, 1.001e-3])
+            except (KeyError, ValueError, IndexError):
+                # the curve a failed call leaves behind is a state as well
+                pass
             return i
         if state == "unsuccessful-multi-pass-fit":
-            # first pass succeeds, later passes have no points
-            i.fit_model(model_key=mk, range_type="relative cp",
-                        range_x=[1e-3, 2e-3])
+            # first pass succeeds, later passes have no points (on the
+            # recorded 'bad' curves the first pass fails: KeyError)
+            try:
+                i.fit_model(model_key=mk, range_type="relative cp",
+                            range_x=[1e-3, 2e-3])
+            except (KeyError, ValueError, IndexError):
+                pass
             return i
         i.fit_model(model_key=mk)
         if state == "settings-edited-after-fit":
@@ -177,6 +194,10 @@ def build_state(rng, cid):
             i.fit_model(model_key=mk, range_x=[-2e-6, 1e-6], weight_cp=0)
         elif state == "retract-fitted":
             i.fit_model(model_key=mk, segment=1)
+        elif state == "fitted-unusual":
+            # contact point driven towards an end of the approach, few
+            # samples in the indentation / baseline part, other abscissa
+            fitlab.odd_fit(i, mk, odd)
         return i
     return build, state, desc
 
@@ -269,7 +290,7 @@ def one_curve(rec, rng, cid, tsets, xproc):
                 continue
             built = tap.built
         rec.evaluated(dg=(desc, state, hist))
-        fitted = state in ("fitted", "refitted", "retract-fitted") and \
+        fitted = state in FITTED and \
             bool(idnt.fit_properties.get("success"))
         isnone = cfg["regressor"].lower() == "none"
         # ---- value
@@ -364,7 +385,7 @@ def one_curve(rec, rng, cid, tsets, xproc):
         cfg["_names_passed"] = names_passed
         prev = cfg if not isnone else prev
     if xproc is not None and isinstance(desc, dict) and len(xproc) < 12 \
-            and state in ("fitted", "refitted", "retract-fitted"):
+            and state in FITTED:
         cfgx = {"regressor": REGS[int(rng.integers(7))], "ts": "zef18",
                 "names": None, "lda": None}
         try:
